@@ -19,11 +19,14 @@ import (
 	"fmt"
 	"io"
 	"os"
+	"runtime"
 	"sort"
 	"strconv"
 	"strings"
+	"sync/atomic"
 	"testing"
 	"testing/synctest"
+	"time"
 
 	usync "github.com/mgtv-tech/redis-GunYu/pkg/sync"
 	"github.com/mgtv-tech/redis-GunYu/pkg/vfutil"
@@ -260,6 +263,14 @@ func (d *c05mem) dump() {
 	}
 	if mc.rdbWriter != nil {
 		rw = 1
+	}
+	if len(mc.aofSegs) >= 3 {
+		d.manySegs = true
+	}
+	for _, sg := range mc.aofSegs {
+		if sg.blob.isClosed() && sg.readers.Load() > 0 {
+			d.pinnedClosed = true
+		}
 	}
 	line := fmt.Sprintf("segs=%s rdb=%s total=%d aw=%d rw=%d", c05mSegs(mc.aofSegs), rdb, mc.totalSize, aw, rw)
 	mc.mux.RUnlock()
@@ -867,6 +878,11 @@ func (d *c05mem) step() bool {
 }
 
 func (d *c05mem) finishCase() {
+	d.caseNo++
+	if d.manySegs && d.pinnedClosed {
+		d.s.Distinct(fmt.Sprintf("mem-%d-%d", vfutil.Seed(), d.caseNo))
+	}
+	d.manySegs, d.pinnedClosed = false, false
 	for _, id := range d.liveReaders() {
 		vr := d.readers[id]
 		vr.rd.Close()
@@ -954,6 +970,60 @@ func (d *c05mem) runScript(script string) {
 	d.finishCase()
 }
 
+// c05mEndless is a source that always has one more byte.
+type c05mEndless struct{ n atomic.Int64 }
+
+func (e *c05mEndless) Read(p []byte) (int, error) {
+	p[0] = byte(e.n.Add(1))
+	return 1, nil
+}
+
+// c05mStress: real goroutines, no bubble (support for the tie, not part of the
+// model correspondence). A stream writer ingesting an endless 1-byte-per-read
+// source is closed from another goroutine at a random instant; afterwards every
+// indexed segment must be closed — a segment left open with no writer makes
+// every reader that reaches its end wait forever although later segments follow.
+func c05mStress(s *vfutil.Session, r *vfutil.Rand, iters int) {
+	for i := 0; i < iters; i++ {
+		mc := NewMemoryChannel(MemoryConf{InputId: "vf", MaxSize: 0, LogSize: 4}).(*MemoryChannel)
+		mc.SetRunId("id1")
+		src := &c05mEndless{}
+		w, err := mc.NewAofWritter(src, 100)
+		if err != nil {
+			continue
+		}
+		w.Start()
+		spin := r.Intn(3000)
+		for k := 0; k < spin; k++ {
+			runtime.Gosched()
+		}
+		w.Close()
+		// let the ingest goroutine run into the closed writer
+		for k := 0; k < 200; k++ {
+			runtime.Gosched()
+		}
+		time.Sleep(200 * time.Microsecond)
+		mc.mux.RLock()
+		open := -1
+		for idx, seg := range mc.aofSegs {
+			if !seg.blob.isClosed() {
+				open = idx
+			}
+		}
+		n := len(mc.aofSegs)
+		mc.mux.RUnlock()
+		s.Count("stress_iterations")
+		if open >= 0 {
+			s.Violate("unclosed-segment-after-writer-close",
+				fmt.Sprintf("after AofWriter.Close() segment %d of %d is still open and has no writer: a reader reaching its end waits forever", open, n),
+				map[string]interface{}{"backend": "memory", "scenario": "close races with a rotating append", "iteration": i})
+			mc.Close()
+			return
+		}
+		mc.Close()
+	}
+}
+
 func TestVerifC05mem(t *testing.T) {
 	s := vfutil.NewSession("C05mem")
 	defer s.Close()
@@ -966,7 +1036,7 @@ func TestVerifC05mem(t *testing.T) {
 			s.Count("corpus_cases")
 		}
 	}
-	cases := vfutil.Scale(60, 1500)
+	cases := vfutil.Scale(250, 3000)
 	if v, err := strconv.Atoi(os.Getenv("VERIF_CASES")); err == nil {
 		cases = v
 	}
@@ -974,4 +1044,5 @@ func TestVerifC05mem(t *testing.T) {
 		synctest.Test(t, func(t *testing.T) { d.runCase(vfutil.Scale(150, 250)) })
 		s.Count("cases")
 	}
+	c05mStress(s, d.r, vfutil.Scale(1500, 40000))
 }
